@@ -210,6 +210,14 @@ def check_pair(acc, broute, elems, relems, branch, mode, path, cache, layer):
         return
     acc.transitions += 1
     acc.validated += 1
+    if got is not None:
+        # the values belong to this one request: whatever it does to a list it was given must not be seen by a later
+        # match (the comparison below works on a copy taken before)
+        mine = got
+        got = dict((k, list(v) if isinstance(v, list) else v) for k, v in mine.items())
+        for v in mine.values():
+            if isinstance(v, list):
+                v.append('~left-by-an-earlier-request')
     if got is None:
         if must:
             acc.violation('C05:miss:%s:%s' % (mode, diagnose('miss', elems, mode, path, None, may, broute.match_path)),
